@@ -271,6 +271,9 @@ def finish(ctx: Ctx, mod, replay_fn=None) -> int:
     known = load_known(ctx.prop)
     out_root = VERIF if str(REPO) == "/repo" else VERIF / "scratch"
     replay_dir = out_root / "replays" / ctx.prop
+    if replay_dir.exists():
+        for old in replay_dir.glob("*.json"):
+            old.unlink()
     unknown_lines = []
     known_hits: dict[str, int] = {}
     flaky = []
